@@ -196,6 +196,24 @@ def apply_ops(structure, ops):
                 return r.label, r.auth
 
             s = rebuild(s, relabel=relabel)
+        elif k == "mixed-case-chains":
+            # chains renamed c, D, a, A, b, E, ... in order of appearance: names that differ by letter case only, and
+            # names whose case-sensitive order (D < c) is the reverse of their order when case is ignored
+            from rnapolis.common import ResidueAuth, ResidueLabel
+
+            names, seen = ["c", "D", "a", "A", "b", "E", "B", "d", "f", "G"], []
+            for r in s.residues:
+                if r.chain not in seen:
+                    seen.append(r.chain)
+            if len(seen) <= len(names):
+                new = dict(zip(seen, names))
+
+                def relabel(ri, r, new=new):
+                    lab = ResidueLabel(new[r.chain], r.label.number, r.label.name) if r.label is not None else None
+                    auth = ResidueAuth(new[r.chain], r.auth.number, r.auth.icode, r.auth.name) if r.auth is not None else None
+                    return lab, auth
+
+                s = rebuild(s, relabel=relabel)
         elif k == "renumber":
             # order-preserving renumbering: every chain starts at op["first"]
             # (negative numbers and zero are legitimate PDB/mmCIF residue numbers)
